@@ -145,7 +145,10 @@ class Recorder:
             elif isinstance(v, dict) and isinstance(self.extra[k], dict):
                 for kk, vv in v.items():
                     if isinstance(vv, (int, float)) and isinstance(self.extra[k].get(kk), (int, float)):
-                        self.extra[k][kk] += vv
+                        if k.startswith("worst"):
+                            self.extra[k][kk] = max(self.extra[k][kk], vv)
+                        else:
+                            self.extra[k][kk] += vv
                     elif isinstance(vv, (list, set)) and isinstance(self.extra[k].get(kk), (list, set)):
                         self.extra[k][kk] = sorted(set(self.extra[k][kk]) | set(vv))
                     else:
